@@ -67,13 +67,28 @@ def run(prop, tier="quick", seed=0, replay=None, keep=False):
     results = []
     proc_events = []   # crashes / watchdog
     deadline = time.time() + shard_timeout
+    # a case that is stuck inside compiled code cannot be interrupted by the child's own alarm:
+    # the parent watches the per-case progress file and stops a shard whose current case is older than stuck_s
+    stuck_s = getattr(mod, "HANG_S", None) or 3 * getattr(mod, "CASE_TIMEOUT_S", 120) + 60
+    pending = {sh: (m, p, out, errf) for sh, m, p, out, errf in procs}
+    rcs = {}
+    while pending:
+        for sh in list(pending):
+            m, p, out, errf = pending[sh]
+            rc = p.poll()
+            if rc is None:
+                prog = _progress(out + ".progress")
+                if time.time() > deadline or (prog is not None and prog["since_s"] > stuck_s):
+                    p.kill(); p.wait()
+                    rc = "watchdog"
+            if rc is not None:
+                errf.close()
+                rcs[sh] = rc
+                del pending[sh]
+        if pending:
+            time.sleep(0.25)
     for sh, m, p, out, errf in procs:
-        try:
-            rc = p.wait(timeout=max(1.0, deadline - time.time()))
-        except subprocess.TimeoutExpired:
-            p.kill(); p.wait()
-            rc = "watchdog"
-        errf.close()
+        rc = rcs[sh]
         stderr_tail = _tail(out + ".stderr")
         prog = _progress(out + ".progress")
         if rc == 0 and os.path.exists(out):
@@ -282,8 +297,9 @@ def _aggregate(mod, prop, tier, seed, thash, shard_modes, results, proc_events, 
 
 
 def write_evidence(prop, ev):
-    os.makedirs(os.path.join(env.ROOT, "evidence"), exist_ok=True)
-    path = os.path.join(env.ROOT, "evidence", "%s.json" % prop)
+    edir = os.environ.get("VERIF_EVIDENCE_DIR") or os.path.join(env.ROOT, "evidence")   # redirect only used by tools/mutcheck.sh
+    os.makedirs(edir, exist_ok=True)
+    path = os.path.join(edir, "%s.json" % prop)
     try:
         import jsonschema
         with open("/root/.vp/EVIDENCE.schema.json") as fh:
